@@ -2,6 +2,7 @@ import OnlVerif.Lemmas.TcpSink
 import OnlVerif.Lemmas.TcpSender
 import OnlVerif.Lemmas.TcpLoop
 import OnlVerif.Lemmas.TcpAckMono
+import OnlVerif.Lemmas.TcpReorder
 import OnlVerif.Lemmas.GenSink
 import OnlVerif.Lemmas.TcpLiveQuiet
 import OnlVerif.Lemmas.TcpLiveRun
@@ -13,7 +14,8 @@ import OnlVerif.Lemmas.TcpLiveTRun
   is the length of the contiguous prefix of the bytes received so far, hence monotone; the buffer stays sorted,
   pairwise non-touching, and covers exactly the received bytes.  Sequence numbers and sizes are natural numbers.
 * **Sender** (`OnlVerif/Tcp/CC.lean`, LTS of `TCPPacketGenerator` over exact rationals `ℚ`): no sequence of actions
-  raises; the acknowledged mark never moves back, whatever the order of the ACKs (`last_ack_monotone`, `stale_ack_is_noop`);
+  raises; the acknowledged mark never moves back, whatever the order of the ACKs (`last_ack_monotone`, `stale_ack_is_noop`;
+  in the closed loop over a reordering return path: `reordering_return_path_safe`);
   on a loss-free, timely path nothing is sent twice; partial progress lemmas.
 * **Closed loop** (`OnlVerif/Tcp/Loop.lean`, `LoopLive.lean`: sender ∥ lossy FIFO data path ∥ sink ∥ lossy FIFO ACK
   path) for a finite flow: the run never ends early (`quiescent_implies_complete`), never gets stuck (`never_stuck`),
@@ -255,6 +257,36 @@ theorem acks_in_flight_are_backed_partial (s0 : Sender ℚ) (l : Loop ℚ) (h0 :
     obtain ⟨n, hn, _⟩ := ackOf_isPrefix _ hsep' (packetArrived_ne_nil l.sink tx.seq tx.size)
     exact ⟨n, by unfold TcpSink.put; exact hn⟩
 
+/-- **Over a return path that reorders and loses ACKs, the sender's acknowledged mark stays a correct cumulative
+acknowledgement.**  `TcpReorder.RReach`: the runs of the closed loop (sender bursts, deliveries over the FIFO data path, losses
+on both paths, clock ticks, in any interleaving) in which additionally *any* ACK in flight - not only the oldest - may reach the
+sender next (`Loop.ackArriveAt i`).  In every state of such a run from a fresh sender: the mark has not moved back, and no
+further step moves it back; **every byte below `last_ack` is held by the sink**; every segment issued so far is at the sink or
+under a pending retransmission timer; no ACK in flight can make `put` raise.  (That such runs also *complete* is searched by the
+overtaken-ACK leg of the correspondence check, not proved: the liveness theorems below are for FIFO paths.) -/
+theorem reordering_return_path_safe (s0 : Sender ℚ) (l : Loop ℚ) (h0 : Inv s0) (hm : 0 < s0.mss) (hl : s0.last_ack = 0)
+    (hr : TcpReorder.RReach (Loop.init s0) l) :
+    s0.last_ack ≤ l.snd.last_ack ∧ (∀ l', TcpReorder.RStep l l' → l.snd.last_ack ≤ l'.snd.last_ack) ∧
+    (∀ b, b < l.snd.last_ack → Covers l.sink b) ∧
+    (∀ q ∈ l.issued, Covers l.sink q ∨ q ∈ AL.keys l.snd.timers) ∧
+    (∀ a ∈ l.acks, ∀ e, l.snd.step (.ack a) ≠ .error e) ∧ Inv l.snd := by
+  have j := TcpReorder.reach_J (J_init s0 h0 hm) hr
+  have m := TcpReorder.reach_mark (J_init s0 h0 hm) hr
+  refine ⟨m.mono, fun l' hs => (TcpReorder.mark_step j hs).mono, ?_, j.issued, fun a ha => ?_, j.snd⟩
+  · refine m.held (fun b hb => ?_)
+    have : (Loop.init s0).snd.last_ack = 0 := hl
+    omega
+  · exact (step_safe j.snd (.ack a) (j.acks a ha).1).1
+
+/-- such a run, with a real overtaking: three segments are sent and delivered, their ACKs (512, 1024, 1536) are in flight; the
+second and the third arrive first, then the first one - below the mark.  Every step is accepted (`TcpReorder.runR_sound`); at
+the end `last_ack = 1536`, the sink holds `[0, 1536)` and nothing is in flight -/
+example : ((TcpReorder.runR (Loop.init (Sender.init .reno ({ (TCPCubic.defaults : CCState ℚ) with mss := 512, cwnd := 1536, ssthresh := 65535 })
+      10 512 (some 1536) 0))
+    [.inl (.own (.wake 8)), .inl .deliver, .inl .deliver, .inl .deliver, .inr 1, .inr 1, .inr 0]).map
+      fun l => (l.snd.last_ack, l.sink, l.acks.length, l.snd.timers.length))
+    = some (1536, [(0, 1536)], 0, 0) := by decide +kernel
+
 /-! ### liveness, safety half: no premature quiescence -/
 
 /-- **If the run ends, everything was delivered and acknowledged.**  Take a freshly constructed generator for a
@@ -449,7 +481,8 @@ completion (as opposed to the number of steps) is not stated; (4) flows with `st
 (`liveness_invariant`, fourth clause) is a *consequence* of that model, not a hypothesis of the theorems, and the termination
 measures use it.  For a return path that reorders ACKs what is proved is the sender-level part, for ACKs in any order:
 `sender_never_raises`, `last_ack_monotone` (the mark never moves back), `stale_ack_is_noop` (an overtaken ACK changes nothing),
-`timer_cancelled_only_by_ack_partial`; that such runs complete is searched by the overtaken-ACK leg of `harness/c16.py`
+`timer_cancelled_only_by_ack_partial`, and the safety half in the closed loop, `reordering_return_path_safe` (the mark never
+moves back, everything below it is at the sink, what the sink lacks is timed, nothing raises); that such runs complete is searched by the overtaken-ACK leg of `harness/c16.py`
 (free return path, held ACKs, application-limited flows), not proved.
 
 **A finding** (repaired: `fix:` commit "the TCP sender ignores an acknowledgement overtaken by a later cumulative one"): `put`
